@@ -151,9 +151,11 @@ STATE = '<channel state>'       # wrapper: (per-channel element, tuple of the ot
 
 
 class ScannerModel(object):
-    """The outer scanner type seen from one channel: an array of 16 per-channel elements plus, possibly,
+    """The outer scanner type seen from one channel: array(s) of 16 per-channel elements plus, possibly,
     further fields shared by all channels (e.g. a timeout).  The analysis always goes through the *outer*
-    public methods with a concrete channel k; nothing is assumed about how the element is processed."""
+    public methods with a concrete channel k; nothing is assumed about how the element is processed.
+    The struct is seen through its *leaves*: private wrapper structs around the array (`PerChannel<T>([T; 16])`)
+    or around groups of fields are looked through."""
 
     def __init__(self, F, public_name):
         self.F = F
@@ -164,27 +166,49 @@ class ScannerModel(object):
         self.outer = outs[0]
         a = F.adts[self.outer]
         self.fields = a['variants'][0]['fields']
-        arr = [i for i, f in enumerate(self.fields) if f['ty']['k'] == 'array' and f['ty']['len'] == 16]
-        if len(arr) != 1:
-            raise RuntimeError('%s has no single per-channel array of 16 elements: %r' % (
-                self.outer, [(f['name'], f['ty']['k'], f['ty'].get('len')) for f in self.fields]))
-        self.ai = arr[0]
-        self.extra = [i for i in range(len(self.fields)) if i != self.ai]
+        self.outer_ty = H.adt_ty(self.outer)
+        # leaves: (path of field indices, type, dotted name)
+        self.leaves = []
+        self._collect(self.outer_ty, (), '')
+        self.arrays = [p for p, ty, n in self.leaves if ty['k'] == 'array' and ty.get('len') == 16]
+        if not self.arrays:
+            raise RuntimeError('%s has no per-channel array of 16 elements: %r' % (
+                self.outer, [(n, ty['k'], ty.get('len')) for p, ty, n in self.leaves]))
+        self.leaf_ty = dict((p, ty) for p, ty, n in self.leaves)
+        self.leaf_name = dict((p, n) for p, ty, n in self.leaves)
+        self.ai = self.arrays[0]
+        self.extra = [p for p, ty, n in self.leaves if p not in self.arrays]
         # an integer field with at least one bit per channel is seen as 16 per-channel bits: bit k belongs to the state of
         # channel k, the other bits to the other channels (a write that changes them is interference)
-        self.bitsets = [i for i in self.extra if self.fields[i]['ty']['k'] == 'int'
-                        and self.fields[i]['ty']['name'] in ('u16', 'u32', 'u64', 'usize', 'i32', 'i64', 'u128')]
-        af = self.fields[self.ai]
-        self.array_len = af['ty']['len']
+        self.bitsets = [p for p in self.extra if self.leaf_ty[p]['k'] == 'int'
+                        and self.leaf_ty[p]['name'] in ('u16', 'u32', 'u64', 'usize', 'i32', 'i64', 'u128')]
+        self.array_len = 16
         self.array_field_private = all(f['vis'] != 'Public' for f in self.fields)
-        self.sub_ty = af['ty']['ty']
+        self.elem_tys = [self.leaf_ty[p]['ty'] for p in self.arrays]
+        self.sub_ty = self.elem_tys[0] if len(self.arrays) == 1 else {'k': 'tuple', 'tys': self.elem_tys}
         self.sub = self.sub_ty['path'] if self.sub_ty['k'] == 'adt' else None
-        self.outer_ty = H.adt_ty(self.outer)
         self.methods = {}
         for name in ('feed', 'poll', 'reset', 'new'):
             ok = self.outer + '::' + name
             if ok in F.fns:
                 self.methods[name] = (ok, self._callee(ok))
+
+    def _collect(self, ty, path, name, depth=0):
+        from .interp import subst_ty
+        ad = self.F.adts.get(ty['path']) if ty['k'] == 'adt' else None
+        if ad is not None and ad['kind'] == 'struct' and depth < 4 and (depth == 0 or ad['variants'][0]['fields']):
+            for i, f in enumerate(ad['variants'][0]['fields']):
+                self._collect(subst_ty(f['ty'], ty.get('args') or []), path + (i,), (name + '.' if name else '') + f['name'], depth + 1)
+            return
+        self.leaves.append((path, ty, name))
+
+    def _node_ty(self, path):
+        from .interp import subst_ty
+        ty = self.outer_ty
+        for i in path:
+            ad = self.F.adts[ty['path']]
+            ty = subst_ty(ad['variants'][0]['fields'][i]['ty'], ty.get('args') or [])
+        return ty
 
     def _callee(self, outer_key):
         # the element method called by the outer method, if there is one (used for reporting only)
@@ -215,9 +239,34 @@ class ScannerModel(object):
         m = self.methods.get(name)
         return m[0] if m else None
 
+    # ---- access by leaf path
+    def get(self, v, path):
+        for i in path:
+            if not isinstance(v, Ag) or i >= len(v.fields):
+                return None
+            v = v.fields[i]
+        return v
+
+    def put(self, v, path, new):
+        if not path:
+            return new
+        fs = list(v.fields)
+        fs[path[0]] = self.put(fs[path[0]], path[1:], new)
+        return Ag(v.path, v.variant, fs)
+
+    def assemble(self, leafvals):
+        """outer value from {leaf path: value}"""
+        def node(ty, path):
+            if path in leafvals:
+                return leafvals[path]
+            ad = self.F.adts[ty['path']]
+            from .interp import subst_ty
+            return Ag(ty['path'], 0, [node(subst_ty(f['ty'], ty.get('args') or []), path + (i,)) for i, f in enumerate(ad['variants'][0]['fields'])])
+        return node(self.outer_ty, ())
+
     # ---- tracked per-channel state <-> outer value
-    def others_tok(self, i):
-        return T.T('others.%s' % self.fields[i]['name'], self.fields[i]['ty']['name'])
+    def others_tok(self, p):
+        return T.T('others.%s' % self.leaf_name[p], self.leaf_ty[p]['name'])
 
     def bit_of(self, v, k, cons):
         """bit k of a shared integer as a one-bit value: constant, a one-bit state token, or unknown"""
@@ -233,40 +282,64 @@ class ScannerModel(object):
             return Sc(x[1], H.BOOL)
         return Un({'k': 'bool'}, 'bit %d of %s' % (k, T.tstr(v.term)))
 
+    def arrays_ok(self, outer_val):
+        return isinstance(outer_val, Ag) and all(isinstance(self.get(outer_val, p), Ar) and len(self.get(outer_val, p).elems) == 16
+                                                 for p in self.arrays)
+
+    def elem(self, outer_val, k):
+        """the per-channel state of channel k (a tuple of the k-th elements when there are several arrays)"""
+        if len(self.arrays) == 1:
+            return self.get(outer_val, self.ai).elems[k]
+        return Ag('()', 0, [self.get(outer_val, p).elems[k] for p in self.arrays])
+
+    def uniform(self, outer_val):
+        return self.arrays_ok(outer_val) and all(val_key(self.elem(outer_val, j)) == val_key(self.elem(outer_val, 0)) for j in range(16))
+
+    def top_others(self):
+        """{array leaf: 16 fresh typed tops}"""
+        return dict((p, [Un(ty, 'channel %d' % j) for j in range(16)]) for p, ty in zip(self.arrays, self.elem_tys))
+
+    def copies_of(self, elem):
+        parts = [elem] if len(self.arrays) == 1 else list(elem.fields)
+        return dict((p, [parts[n]] * 16) for n, p in enumerate(self.arrays))
+
     def wrap(self, outer_val, k, cons=None):
-        arr = outer_val.fields[self.ai]
         ex = []
-        for i in self.extra:
-            ex.append(self.bit_of(outer_val.fields[i], k, cons or {}) if i in self.bitsets else outer_val.fields[i])
-        return Ag(STATE, 0, [arr.elems[k], Ag('()', 0, ex)])
+        for p in self.extra:
+            v = self.get(outer_val, p)
+            ex.append(self.bit_of(v, k, cons or {}) if p in self.bitsets else v)
+        return Ag(STATE, 0, [self.elem(outer_val, k), Ag('()', 0, ex)])
 
     def build(self, state, k, others, cons=None):
-        fields = [None] * len(self.fields)
-        fields[self.ai] = Ar([state.fields[0] if j == k else others[j] for j in range(16)])
-        for n, i in enumerate(self.extra):
+        leafvals = {}
+        parts = [state.fields[0]] if len(self.arrays) == 1 else list(state.fields[0].fields)
+        for n, p in enumerate(self.arrays):
+            leafvals[p] = Ar([parts[n] if j == k else others[p][j] for j in range(16)])
+        for n, p in enumerate(self.extra):
             v = state.fields[1].fields[n]
-            if i in self.bitsets:
-                name = self.fields[i]['ty']['name']
-                ot = self.others_tok(i)
+            if p in self.bitsets:
+                name = self.leaf_ty[p]['name']
+                ot = self.others_tok(p)
+                full = T.ty_vs(name) if T.ty_vs(name).lo >= 0 else VS(0, (1 << 31) - 1)
                 if cons is not None and ot not in cons:
-                    cons[ot] = T.ty_vs(name) if T.ty_vs(name).lo >= 0 else VS(0, (1 << 31) - 1)
-                rest = T.mk_op('BitAnd', ot, C(T.ty_vs(name).hi & ~(1 << k)) if T.ty_vs(name).lo >= 0 else C(((1 << 31) - 1) & ~(1 << k)), None, cons or {})
+                    cons[ot] = full
+                rest = T.mk_op('BitAnd', ot, C(full.hi & ~(1 << k)), None, cons or {})
                 if isinstance(v, Sc) and v.term == C(0):
                     term = rest
                 elif isinstance(v, Sc):
                     term = T.mk_op('BitOr', rest, T.mk_op('Shl', v.term, C(k), None, cons or {}), None, cons or {})
                 else:
                     term = ot        # unknown own bit: the field is entirely unknown
-                v = Sc(term, self.fields[i]['ty'])
-            fields[i] = v
-        return Ag(self.outer, 0, fields)
+                v = Sc(term, self.leaf_ty[p])
+            leafvals[p] = v
+        return self.assemble(leafvals)
 
     def foreign_bits_changed(self, after, k, cons):
         """[(field name, bits)] of per-channel bit sets whose bits of *other* channels differ from what they were"""
         out = []
-        for i in self.bitsets:
-            v = after.fields[i]
-            ot = self.others_tok(i)
+        for p in self.bitsets:
+            v = self.get(after, p)
+            ot = self.others_tok(p)
             b = T.bits_of(v.term, cons, 32) if isinstance(v, Sc) else None
             bad = []
             for j in range(16):
@@ -275,8 +348,28 @@ class ScannerModel(object):
                 if b is None or j >= len(b) or b[j] == T.UNK or b[j] in (0, 1) or not (b[j][1] == ot and b[j][2] == j):
                     bad.append(j)
             if bad:
-                out.append((self.fields[i]['name'], bad))
+                out.append((self.leaf_name[p], bad))
         return out
+
+    def classify_write(self, wpath):
+        """a logged write path -> ('elem', array leaf, index term) | ('arrays', [array leaves]) + ('shared', [extra leaves])"""
+        fp = []
+        rest = None
+        for n, e in enumerate(wpath):
+            if e[0] == 'f':
+                fp.append(e[1])
+            else:
+                rest = wpath[n:]
+                break
+        fp = tuple(fp)
+        for p in self.arrays:
+            if fp == p and rest and rest[0][0] == 'i':
+                return ('elem', p, rest[0][1])
+            if fp[:len(p)] == p and len(fp) > len(p):
+                return ('elem', p, None)        # cannot happen (array leaves have no fields); treated as unknown index
+        arrs = [p for p in self.arrays if p[:len(fp)] == fp]
+        shared = [p for p in self.extra if p[:len(fp)] == fp or fp[:len(p)] == p]
+        return ('bulk', arrs, shared)
 
 
 def msg_roles(F):
@@ -303,6 +396,7 @@ class Product(object):
         self.pairs = {}          # key -> (code_state, spec_state, cons)
         self.rows = []
         self.mismatches = []     # (pair_key, cname, text)
+        self.site_ok = {}        # construction sites visited on reachable typestates (see _fold_sites)
         self.order = []
         self.init_keys = []
 
@@ -330,20 +424,26 @@ class StepOutcome(object):
         self.kind, self.why, self.value, self.st, self.new_state, self.interference, self.site = kind, why, value, st, new_state, interference, site
 
 
+def _holds_at_ctor(I, st, v):
+    from . import invariants
+    return invariants.holds_at_ctor(I, st, v)
+
+
 def run_step(F, model, kind, code_state, cons, status=CUR_STATUS, d1=CUR_D1, d2=CUR_D2, k=0, seconds=None):
     """one abstract step of the *outer* scanner seen from channel k -> (interp, [StepOutcome]).
     The elements of the other 15 channels are unconstrained tops; any read or write of them is reported as
     interference (feed / poll); for reset they are new elements."""
     hooks = H.msg_hooks(status, d1, d2)
-    I = Interp(F, abstract_methods=hooks)
+    I = Interp(F, abstract_methods=hooks, observe=True)
+    I.struct_invariant = _holds_at_ctor
     if seconds is not None:
         I.TIME_BUDGET = min(I.TIME_BUDGET, seconds)
     st = I.new_state()
     st.cons.update(cons)
     if kind == 'reset':
-        others = [code_state.fields[0]] * 16
+        others = model.copies_of(code_state.fields[0])
     else:
-        others = [Un(model.sub_ty, 'channel %d' % j) for j in range(16)]
+        others = model.top_others()
     outer = model.build(code_state, k, others, st.cons)
     st.root().locals['self'] = outer
     selfref = Rf(0, 'self', (), True)
@@ -364,48 +464,45 @@ def run_step(F, model, kind, code_state, cons, status=CUR_STATUS, d1=CUR_D1, d2=
         new_state, interf = None, None
         if o.kind == 'return':
             after = o.st.root().locals['self']
-            arr = after.fields[model.ai] if isinstance(after, Ag) and len(after.fields) > model.ai else None
-            if not isinstance(arr, Ar) or len(arr.elems) != 16:
-                interf = 'unproven: the per-channel storage is no longer a 16-element array: %r' % (arr,)
+            if not model.arrays_ok(after):
+                interf = 'unproven: the per-channel storage is no longer a 16-element array: %r' % (after,)
             else:
                 new_state = model.wrap(after, k, o.st.cons)
                 if kind != 'reset':
-                    interf = _interference(model, k, o, arr, others, after)
+                    interf = _interference(model, k, o, others, after)
         res.append(StepOutcome(o.kind, o.why, o.value, o.st, new_state, interf, o.site))
     return I, res
 
 
-def _interference(model, k, o, arr, others, after=None):
+def _interference(model, k, o, others, after):
     """explicit writes of this call into the state of another channel or into a field shared by all channels;
     reads of another channel's state (its lazily materialised top differs from the untouched original)"""
     written, shared, weak = set(), set(), False
+
+    def touched(p):
+        arr = model.get(after, p)
+        return set(j for j in range(16) if j != k and arr.elems[j] is not others[p][j])
     for e in o.st.events:
         if e[0] == 'weak-array-write':
             weak = True
         if e[0] != 'w':
             continue
-        path = e[1]
-        if not path:
-            written |= set(range(16)) - {k}
-            continue
-        if path[0][0] != 'f':
-            continue
-        if path[0][1] != model.ai:
-            if path[0][1] not in model.bitsets:
-                shared.add(path[0][1])
-            continue
-        if len(path) == 1:
-            # the whole array is assigned: compare element-wise below
-            written |= set(j for j in range(16) if j != k and arr.elems[j] is not others[j])
-            continue
-        idx = vs_of(path[1][1], o.st.cons) if path[1][0] == 'i' else None
-        if idx is None or not idx.single():
-            weak = True
-        elif idx.lo != k:
-            written.add(idx.lo)
+        c = model.classify_write(e[1])
+        if c[0] == 'elem':
+            idx = vs_of(c[2], o.st.cons) if c[2] is not None else None
+            if idx is None or not idx.single():
+                weak = True
+            elif idx.lo != k:
+                written.add(idx.lo)
+        else:
+            for p in c[1]:
+                written |= touched(p)      # a whole array (or a struct containing it) is assigned: compare element-wise
+            for p in c[2]:
+                if p not in model.bitsets:
+                    shared.add(p)
     if written:
         return 'an input for channel %d writes the state of channel(s) %s' % (k, sorted(written)[:4])
-    if after is not None and model.bitsets:
+    if model.bitsets:
         fb = model.foreign_bits_changed(after, k, o.st.cons)
         if fb:
             return 'an input for channel %d changes the bits of channel(s) %s in the per-channel bit set %s' % (k, fb[0][1][:6], fb[0][0])
@@ -413,8 +510,8 @@ def _interference(model, k, o, arr, others, after=None):
         return 'an input for channel %d writes a per-channel element whose index is not determined by the channel' % k
     if shared:
         return 'unproven: an input for channel %d writes field(s) %s shared by all channels' % (
-            k, [model.fields[i]['name'] for i in sorted(shared)])
-    read = [j for j in range(16) if j != k and arr.elems[j] is not others[j]]
+            k, [model.leaf_name[p] for p in sorted(shared)])
+    read = sorted(set().union(*[touched(p) for p in model.arrays]))
     if read:
         return 'unproven: an input for channel %d reads the state of channel(s) %s' % (k, read[:4])
     return None
@@ -427,7 +524,7 @@ def initial_states(F, model, spec, k=0):
     if hit:
         I = Interp(F)
         outs = I.run(hit[0], [], hit[1])
-        if len(outs) == 1 and outs[0].kind == 'return' and _uniform(model, outs[0].value):
+        if len(outs) == 1 and outs[0].kind == 'return' and model.uniform(outs[0].value):
             to = ('app', 'Duration::default', ()) if spec.has_poll else None
             res.append(('default', model.wrap(outs[0].value, k, outs[0].st.cons), spec.init(to), {}))
     newk = model.outer + '::new'
@@ -441,14 +538,9 @@ def initial_states(F, model, spec, k=0):
         else:
             outs = I.run(newk, [], [], st)
             init = spec.init(None)
-        if len(outs) == 1 and outs[0].kind == 'return' and _uniform(model, outs[0].value):
+        if len(outs) == 1 and outs[0].kind == 'return' and model.uniform(outs[0].value):
             res.append(('new', model.wrap(outs[0].value, k, outs[0].st.cons), init, {}))
     return res
-
-
-def _uniform(model, outer_val):
-    arr = outer_val.fields[model.ai] if isinstance(outer_val, Ag) and len(outer_val.fields) > model.ai else None
-    return isinstance(arr, Ar) and len(arr.elems) == 16 and all(val_key(e) == val_key(arr.elems[0]) for e in arr.elems)
 
 
 def extract_outputs(F, roles, ret, st=None):
@@ -572,6 +664,7 @@ def explore(F, model, spec, k=0, max_pairs=200):
             I, outs = run_step(F, model, kind, cs, c0, k=k, seconds=max(1.0, t_end - _time.process_time()))
             P.steps += I.total_steps
             P.fns |= I.fns_entered
+            _fold_sites(P, I)
             for o in outs:
                 row = Row()
                 row.pair_key, row.cname, row.kind = key, cname, kind
@@ -655,6 +748,22 @@ def explore(F, model, spec, k=0, max_pairs=200):
     return P
 
 
+def _fold_sites(P, I):
+    """construction sites seen while exploring: site -> [holds on every visit (True / False / None), example, visits]"""
+    from . import invariants
+    rank = {True: 0, None: 1, False: 2}
+    for site, lst in I.obs_ctor.items():
+        for (path, variant, fields, extra, stack) in lst:
+            ok, txt = invariants.ctor_obs_verdict(path, fields, extra)
+            cur = P.site_ok.get(site)
+            if cur is None:
+                P.site_ok[site] = [ok, txt, 1]
+            else:
+                cur[2] += 1
+                if rank[ok] > rank[cur[0]]:
+                    cur[0], cur[1] = ok, txt
+
+
 def _spec_needs_now(s):
     return isinstance(s, tuple) and any(x is None for x in s[-1:]) and s and s[0] in ('P6', 'P38')
 
@@ -721,7 +830,12 @@ def product_for(F, spec_cls, public_name):
     P0 = allp[0]
     for k in range(1, 16):
         if k not in allp:
-            allp[k] = P0       # only when channel 0 exhausted its budget (reported there)
+            # channel 0 exhausted its budget (reported there): the other channels are not explored; they get an empty
+            # product so that no per-channel clause mistakes channel 0's rows for theirs
+            stub = Product()
+            stub.roles, stub.channel, stub.steps, stub.fns, stub.exhausted = P0.roles, k, 0, set(), True
+            stub.mismatches.append((None, 'init', 'unproven: not explored (the exploration of channel 0 did not finish)'))
+            allp[k] = stub
     res = (model, spec, allp[0], allp)
     _product_cache[key] = res
     return res
